@@ -12,6 +12,7 @@ package tracer
 // are translated with the same mapping before they are compared with what the tracer reported.
 
 import (
+	"bufio"
 	"bytes"
 	"context"
 	"crypto/sha1"
@@ -122,7 +123,41 @@ func c14CompressionOf(enc string) conformancev1.Compression {
 	return conformancev1.Compression_COMPRESSION_IDENTITY
 }
 
+var c14CompCache, c14DecCache sync.Map
+
+type c14Decoded struct {
+	s   string
+	err error
+}
+
+// c14Compress / c14Decode are memoized: the same few texts are compressed for every behaviour.
 func c14Compress(enc string, data []byte) ([]byte, error) {
+	key := enc + "\x00" + string(data)
+	if v, ok := c14CompCache.Load(key); ok {
+		return v.([]byte), nil
+	}
+	res, err := c14CompressRaw(enc, data)
+	if err == nil && len(data) <= 8192 {
+		c14CompCache.Store(key, res)
+	}
+	return res, err
+}
+
+func c14Decode(enc string, data []byte) (string, error) {
+	if len(data) > 16384 {
+		return c14DecodeRaw(enc, data)
+	}
+	key := enc + "\x00" + string(data)
+	if v, ok := c14DecCache.Load(key); ok {
+		d := v.(c14Decoded)
+		return d.s, d.err
+	}
+	res, err := c14DecodeRaw(enc, data)
+	c14DecCache.Store(key, c14Decoded{res, err})
+	return res, err
+}
+
+func c14CompressRaw(enc string, data []byte) ([]byte, error) {
 	comp, err := compression.GetCompressor(c14CompressionOf(enc))
 	if err != nil {
 		return nil, err
@@ -138,8 +173,8 @@ func c14Compress(enc string, data []byte) ([]byte, error) {
 	return buf.Bytes(), nil
 }
 
-// c14Decode runs a fresh decompressor of the compression package (not the tracer) over data.
-func c14Decode(enc string, data []byte) (string, error) {
+// c14DecodeRaw runs a fresh decompressor of the compression package (not the tracer) over data.
+func c14DecodeRaw(enc string, data []byte) (string, error) {
 	dec, err := compression.GetDecompressor(c14CompressionOf(enc))
 	if err != nil {
 		return "", err
@@ -906,7 +941,7 @@ func c14Range() (lo, hi int, ok bool) {
 
 func c14Workers() int {
 	if _, _, child := c14Range(); child {
-		return 2
+		return 4
 	}
 	return runtime.NumCPU()
 }
@@ -1166,15 +1201,49 @@ func c14JudgeUnguarded(s *c14Scn, idx int, carrier, enc string) (mm *c14Mismatch
 		Exp: c14Abbrev(exp), Obs: c14Abbrev(r.Obs)}, "", false
 }
 
-func TestVerifC14Replay(t *testing.T) {
-	lines, err := verifutil.ReadLines(verifutil.Env("VERIF_SCN", "scn.ndjson"))
+// c14ReadRange returns lines [lo,hi) of an ndjson file (hi < 0: none, just count) and the line count.
+func c14ReadRange(path string, lo, hi int) ([]json.RawMessage, int, error) {
+	fh, err := os.Open(path)
 	if err != nil {
-		t.Fatal(err)
+		return nil, 0, err
 	}
+	defer fh.Close()
+	var res []json.RawMessage
+	sc := bufio.NewScanner(fh)
+	sc.Buffer(make([]byte, 1<<20), 1<<28)
+	n := 0
+	for sc.Scan() {
+		b := sc.Bytes()
+		if len(b) == 0 {
+			continue
+		}
+		if n >= lo && n < hi {
+			res = append(res, append(json.RawMessage(nil), b...))
+		}
+		n++
+	}
+	return res, n, sc.Err()
+}
+
+func TestVerifC14Replay(t *testing.T) {
+	path := verifutil.Env("VERIF_SCN", "scn.ndjson")
 	lo, hi, child := c14Range()
 	if !child {
-		c14Supervise(t, "TestVerifC14Replay", len(lines), func(i int) any { return lines[i] }, true)
+		_, n, err := c14ReadRange(path, 0, -1)
+		if err != nil {
+			t.Fatal(err)
+		}
+		c14Supervise(t, "TestVerifC14Replay", n, func(i int) any {
+			if l, _, err := c14ReadRange(path, i, i+1); err == nil && len(l) == 1 {
+				return l[0]
+			}
+			return nil
+		}, true)
 		return
+	}
+	lines, _, err := c14ReadRange(path, lo, hi)
+	if err != nil || len(lines) != hi-lo {
+		t.Fatalf("cannot read scenarios %d:%d: %v", lo, hi, err)
 	}
 	out, err := verifutil.NewOut(verifutil.Env("VERIF_OUT", "out.ndjson"))
 	if err != nil {
@@ -1184,7 +1253,7 @@ func TestVerifC14Replay(t *testing.T) {
 	allEncs := verifutil.EnvInt("VERIF_ALL_ENCS", 1) == 1
 	base := verifutil.EnvInt("VERIF_IDX_BASE", 0) // index of the first line (replay of a single scenario)
 	scns := make([]*c14Scn, hi-lo)
-	for i, l := range lines[lo:hi] {
+	for i, l := range lines {
 		var s c14Scn
 		if err := json.Unmarshal(l, &s); err != nil {
 			t.Fatalf("line %d: %v", lo+i, err)
